@@ -34,10 +34,10 @@ func c15Reps(tier string) (same, fresh, procs int) {
 
 func init() {
 	Register(&Prop{
-		ID:         "C15",
-		Gomaxprocs: 2,
-		Rule:       "workspaces of 3-4 journals from G with shared accounts, payees (with different posting templates in different files), commodities (declared with different formats in two files) and tags, transactions out of balance in >=2 commodities, all files open; a fixed request list (published diagnostics of every document, completion in account/payee/commodity/tag-name/tag-value context with an empty fragment so that ties in the ranking occur, references and definition on shared symbols, document and workspace symbols, inline completion for a payee with two templates, hover, formatting) is answered 50 times by one server, by 12 (quick) / 50 (thorough) fresh servers in the same process and by 4/8 fresh processes (child processes of the harness; Go seeds map iteration per map and per process). Oracle: exactly one distinct canonical serialisation per request. Excluded: semantic-token result ids, the three clock-dependent date items. Non-trivial = every workspace (>=2 files share names); distinct by workspace hash.",
-		Notes:      []string{"history dates are <= 2019 so that clock-dependent completion items cannot collide with them"},
+		ID:          "C15",
+		Gomaxprocs:  2,
+		Rule:        "workspaces of 3-4 journals from G with shared accounts, payees (with different posting templates in different files), commodities (declared with different formats in two files) and tags, transactions out of balance in >=2 commodities, all files open; a fixed request list (published diagnostics of every document, completion in account/payee/commodity/tag-name/tag-value context with an empty fragment so that ties in the ranking occur, references and definition on shared symbols, document and workspace symbols, inline completion for a payee with two templates, hover, formatting) is answered 50 times by one server, by 12 (quick) / 50 (thorough) fresh servers in the same process, by one server that reached the same texts through an edit (include directives of the root re-ordered) and by 4/8 fresh processes (child processes of the harness; Go seeds map iteration per map and per process). Oracle: exactly one distinct canonical serialisation per request. Excluded: semantic-token result ids, the three clock-dependent date items. Non-trivial = every workspace (>=2 files share names); distinct by workspace hash.",
+		Notes:       []string{"history dates are <= 2019 so that clock-dependent completion items cannot collide with them"},
 		Cases:       c15Counts,
 		MustObserve: []string{"workspaces", "requests", "responses_compared", "fresh_processes"},
 		Setup:       func(c *Ctx) { c.State = &c15State{bad: c.Known.BadFeatureSets("C03", "C15")} },
@@ -282,6 +282,58 @@ func runC15(c *Ctx, idx int64) {
 			return
 		}
 		note(fmt.Sprintf("fresh server %d", rep), res)
+	}
+	// (b') a server that arrives at the same texts through an edit history: the root document is
+	// first opened with its include directives in reverse order, then changed to the final text
+	{
+		lines := strings.Split(w.Texts[0], "\n")
+		var at []int
+		for i, l := range lines {
+			if strings.HasPrefix(l, "include ") {
+				at = append(at, i)
+			}
+		}
+		if len(at) >= 2 {
+			rev := append([]string(nil), lines...)
+			for k, i := range at {
+				rev[i] = lines[at[len(at)-1-k]]
+			}
+			// the server starts on a disk state with the re-ordered root, the editor then holds the final text
+			hdir := filepath.Join(filepath.Dir(dir), "hist")
+			os.MkdirAll(hdir, 0o755)
+			w.Write(hdir)
+			os.WriteFile(filepath.Join(hdir, w.Names[0]), []byte(strings.Join(rev, "\n")), 0o644)
+			hs := NewSession(hdir, SessOpt{Root: w.Root})
+			hs.Drain()
+			// from here on the files are those every other server sees
+			os.WriteFile(filepath.Join(hdir, w.Names[0]), []byte(w.Texts[0]), 0o644)
+			for f := len(w.Names) - 1; f >= 0; f-- {
+				hs.OpenWait(w.URI(hs, f), w.Texts[f])
+			}
+			hs.Drain()
+			if r := NewRNG(c.Seed, uint64(idx), 77); r.Bool() {
+				// and once more through a change notification
+				hs.ChangeFull(w.URI(hs, 0), strings.Join(rev, "\n"))
+				hs.Drain()
+				hs.ChangeFull(w.URI(hs, 0), w.Texts[0])
+				hs.Drain()
+			}
+			res := map[string]string{}
+			for f := range w.Names {
+				if pub := hs.Stub.LastPub(w.URI(hs, f)); pub != nil && f == 0 {
+					var ds []string
+					for _, d := range pub.Diagnostics {
+						ds = append(ds, DiagKey(d))
+					}
+					res[fmt.Sprintf("diagnostics(%s)", w.Names[f])] = strings.Join(ds, "\n")
+				}
+			}
+			for _, rq := range reqs {
+				res[rq.Name] = rq.Do(hs, w)
+			}
+			c.Count("servers_with_edit_history", 1)
+			note("server that reached the same texts through an edit (include directives re-ordered)", res)
+		}
 	}
 	// (c) fresh processes
 	exe := os.Getenv("VERIF_SELF_EXE")
